@@ -124,7 +124,7 @@ def run_one(scn: tuple, faults: dict[int, str], seed: int):  # noqa: ANN201
     else:
         w = TunnelWorld(("c09", seed, scn), ROLES, key_offset=seed)
     try:
-        plan = FaultPlan(w, {int(i): f for i, f in faults.items()})
+        plan = FaultPlan(w, {int(i): f for i, f in faults.items() if str(i) != "sched"})
         ov = w.ov
         if "L" in ov:
             # the legacy-key peer becomes known to the path nodes only once the circuit under test exists
@@ -160,6 +160,7 @@ def run_one(scn: tuple, faults: dict[int, str], seed: int):  # noqa: ANN201
                 o.circuits_needed[1] = 1        # ... but wants a circuit: create_circuit fails on every do_circuits()
         # who holds what right now (white box): the initiator tears down whatever entry it has for this circuit
         plan.arm()
+        w.batch = faults.get("sched") == "batch"     # from the trigger on: back-to-back datagrams share a loop iteration
         t0 = w.loop.time()
         if phase == "first-data":
             # the very first data cell of the circuit is sent just before the teardown (a fault may let the
@@ -258,6 +259,12 @@ def explore_scenarios(chunk: list) -> list:
 
         n0 = run({})
         dfs((), n0)
+        # scheduling mode "batch": the fault-free run and every single fault once more with all datagrams queued for a
+        # node handled in one loop iteration
+        nb = run({"sched": "batch"})
+        for j in range(nb):
+            for f in ("drop", "dup", "delay"):
+                run({j: f, "sched": "batch"})
         if _SINGLES:
             for j in range(n0):
                 run({j: "dup"})
@@ -389,7 +396,7 @@ def run(ctx: core.Ctx) -> core.Report:
         "rule": "one evaluation = one complete run of real TunnelCommunity nodes (default settings) from circuit build "
                 "through teardown to the deadline under one fault set; fault sets = every subset of <= bound dropped "
                 f"datagrams among those sent within {FAULT_WINDOW:.0f}s after the trigger (DFS: indices re-read from each "
-                "run), every single duplication and adjacent reordering, and dup+drop pairs; distinct_nontrivial = "
+                "run), every single duplication and adjacent reordering, and dup+drop pairs; the fault-free run and every single fault again in scheduling mode 'batch' (all datagrams queued for one node handled in one loop iteration); distinct_nontrivial = "
                 "distinct (table sizes, open sockets, teardown action, datagrams sent, duration) observations summed "
                 "over scenarios",
         "samples": per[:3] + per[-2:],
